@@ -97,6 +97,7 @@ fn from_val(v: &Value) -> Result<RunScenario, String> {
 }
 
 fn gen_knobs(rng: &mut Rng, script: &mut RunScript) {
+    script.rand_seed = Some(rng.next_u64() % 1_000_000);
     script.workers = Some(*rng.pick(&[1u32, 2, 4, 16]));
     script.flush_ms = Some(*rng.pick(&[5u64, 20, 100, 500]));
 }
@@ -293,6 +294,7 @@ fn gen_c16(seed: u64, idx: usize, tier: Tier) -> RunScenario {
     script.sched_seed = rng.next_u64();
     script.workers = Some(*rng.pick(&[1u32, 1, 2, 4, 16]));
     script.flush_ms = Some(20);
+    script.rand_seed = Some(rng.next_u64() % 1_000_000);
     RunScenario { spec, mode: Mode::All, script, hang_ms: default_hang_ms() }
 }
 
@@ -995,6 +997,7 @@ fn gen_c11(seed: u64, idx: usize, _tier: Tier) -> (RunScenario, C11Extra) {
     script.strategy = *rng.pick(&[Strategy::PlanOrder, Strategy::Reverse, Strategy::Uniform]);
     script.sched_seed = rng.next_u64();
     script.workers = Some(*rng.pick(&[1u32, 4, 16]));
+    script.rand_seed = Some(rng.next_u64() % 1_000_000);
     (RunScenario { spec, mode, script, hang_ms: default_hang_ms() }, C11Extra { argmap_files })
 }
 
